@@ -196,17 +196,17 @@ def lvaGo : Bytes → Bool
 def looksLikeVirtualAccount (a : Bytes) : Bool := lvaGo (a.drop 1)
 
 /-- `l.looksLikeDate()`.  After the guard `l.pos+8 > len(l.input)` every index the Go code
-    reads (`pos+0 … pos+7`) is in range, so no read can panic; with eight bytes available the
-    tests `l.pos+6 < len` and `l.pos+secondSepPos >= len` are constant. -/
+    reads (`pos+0 … pos+7`) is in range, so no read can panic (`looksLikeDateChk` below is the
+    same function with checked reads); with eight bytes available the tests `l.pos+6 < len` and
+    `l.pos+secondSepPos >= len` are constant.  `a.getD i 0` = `l.input[l.pos+i]`. -/
+def looksLikeDateCore (a : Bytes) : Bool :=
+  isDigit (a.getD 0 0) && isDigit (a.getD 1 0) && isDigit (a.getD 2 0) && isDigit (a.getD 3 0) &&
+  (a.getD 4 0 == 0x2D || a.getD 4 0 == 0x2F || a.getD 4 0 == 0x2E) &&
+  isDigit (a.getD 5 0) &&
+  (if isDigit (a.getD 6 0) then a.getD 7 0 == a.getD 4 0 else a.getD 6 0 == a.getD 4 0)
+
 def looksLikeDate (a : Bytes) : Bool :=
-  if a.length < 8 then false else
-  match a with
-  | d0 :: d1 :: d2 :: d3 :: sep :: m :: x :: y :: _ =>
-    if !(isDigit d0 && isDigit d1 && isDigit d2 && isDigit d3) then false
-    else if sep != 0x2D && sep != 0x2F && sep != 0x2E then false
-    else if !isDigit m then false
-    else if isDigit x then y == sep else x == sep
-  | _ => false
+  if a.length < 8 then false else looksLikeDateCore a
 
 /-- The same function with every index read checked (`none` = index out of range = Go panic);
     `HL.Lex.looksLikeDateChk_eq` proves it never is. -/
@@ -422,6 +422,12 @@ def next (C : Classes) (z : Z) : Token × Z :=
   | [] => mkTok .eof [] z z
   | _ :: _ =>
     if z.atStart && z.col == 1 then scanLineStart C z else scanInLine C z
+
+/-! ### position shifts (statement of line-locality, C07) -/
+def shiftPos (dl doff : Nat) (p : Pos) : Pos := ⟨p.line + dl, p.col, p.off + doff⟩
+/-- the same token `dl` lines and `doff` bytes further down -/
+def shiftTok (dl doff : Nat) (t : Token) : Token :=
+  { t with pos := shiftPos dl doff t.pos, stop := shiftPos dl doff t.stop }
 
 /-- Repeated `Next` up to and including the first EOF token. -/
 def lexF (C : Classes) : Nat → Z → List Token
